@@ -44,7 +44,7 @@ func writers(c *rt.Ctx) {
 		}
 		nops := 3 + r.IntN(6)
 		for k := 0; k < nops; k++ {
-			op := r.IntN(6)
+			op := r.IntN(8)
 			var opName string
 			var err error
 			plan := func() *migrate.Plan {
@@ -82,6 +82,41 @@ func writers(c *rt.Ctx) {
 					var sum migrate.HashFile
 					if sum, err = dir.Checksum(); err == nil {
 						err = migrate.WriteSumFile(dir, sum)
+					}
+				}
+			case 6, 7:
+				fs, ferr := dir.Files()
+				if ferr != nil || len(fs) == 0 {
+					continue
+				}
+				f := fs[r.IntN(len(fs))]
+				if op == 6 && local != "" {
+					opName = "remove file + rehash"
+					err = os.Remove(filepath.Join(local, f.Name()))
+				} else {
+					opName = "rewrite file shorter + rehash"
+					b := f.Bytes()
+					if len(b) < 4 {
+						continue
+					}
+					err = dir.WriteFile(f.Name(), b[:len(b)/2])
+				}
+				if err == nil {
+					var sum migrate.HashFile
+					if sum, err = dir.Checksum(); err == nil {
+						err = migrate.WriteSumFile(dir, sum)
+					}
+				}
+				if err == nil && local != "" {
+					// what is on disk must be exactly what was written (no stale tail)
+					if got, rerr := os.ReadFile(filepath.Join(local, migrate.HashFileName)); rerr == nil {
+						sum, _ := dir.Checksum()
+						want, _ := sum.MarshalText()
+						if string(got) != string(want) {
+							hist = append(hist, opName)
+							c.Violation("writer|sum-file-bytes", fmt.Sprintf("atlas.sum on disk after %s is not what WriteSumFile wrote: %q vs %q", opName, got, want), map[string]any{"history": hist, "h": h}, nil)
+							return
+						}
 					}
 				}
 			case 4:
@@ -162,9 +197,43 @@ func writers(c *rt.Ctx) {
 		}
 		var hist []string
 		w.Begin(map[string]any{"cli-writers": i})
-		for k := 0; k < 4; k++ {
+		for k := 0; k < 6; k++ {
 			var op string
-			switch r.IntN(3) {
+			switch r.IntN(5) {
+			case 3:
+				op = "remove last file + migrate hash"
+				es, _ := os.ReadDir(mdir)
+				var last string
+				for _, e := range es {
+					if strings.HasSuffix(e.Name(), ".sql") {
+						last = e.Name()
+					}
+				}
+				if last == "" {
+					continue
+				}
+				os.Remove(filepath.Join(mdir, last))
+				if rc, out := run("migrate", "hash", "--dir", "file://"+mdir); rc != 0 {
+					c.Violation("cli-writer|hash-failed", "atlas migrate hash failed: "+out, map[string]any{"history": hist}, nil)
+					return
+				}
+			case 4:
+				op = "truncate a file + migrate hash"
+				es, _ := os.ReadDir(mdir)
+				var first string
+				for _, e := range es {
+					if strings.HasSuffix(e.Name(), ".sql") && first == "" {
+						first = e.Name()
+					}
+				}
+				if first == "" {
+					continue
+				}
+				os.WriteFile(filepath.Join(mdir, first), []byte("-- x\n"), 0o644)
+				if rc, out := run("migrate", "hash", "--dir", "file://"+mdir); rc != 0 {
+					c.Violation("cli-writer|hash-failed", "atlas migrate hash failed: "+out, map[string]any{"history": hist}, nil)
+					return
+				}
 			case 0:
 				op = fmt.Sprintf("migrate new n%d", k)
 				if rc, out := run("migrate", "new", fmt.Sprintf("n%d", k), "--dir", "file://"+mdir); rc != 0 {
@@ -207,5 +276,74 @@ func writers(c *rt.Ctx) {
 			}
 		}
 		c.Eval(rt.Digest("cli", hist), true)
+	})
+	importWriters(c)
+}
+
+// importWriters: `atlas migrate import` writes a whole directory; it must leave it valid whatever the
+// naming/ordering of the source (unpadded Flyway versions, repeatable migrations, several files).
+func importWriters(c *rt.Ctx) {
+	type src struct {
+		format string
+		files  map[string]string
+	}
+	var cases []src
+	up := func(n int) string { return fmt.Sprintf("CREATE TABLE t%d (id int);\n", n) }
+	cases = append(cases,
+		src{"flyway", map[string]string{"V2__second.sql": up(2), "V10__tenth.sql": up(10), "V1__first.sql": up(1)}},
+		src{"flyway", map[string]string{"V1__a.sql": up(1), "V2__b.sql": up(2), "R__views.sql": "CREATE TABLE r (id int);\n"}},
+		src{"flyway", map[string]string{"V1.1__a.sql": up(1), "V1.10__b.sql": up(2), "V1.2__c.sql": up(3)}},
+		src{"golang-migrate", map[string]string{"1_a.up.sql": up(1), "1_a.down.sql": "DROP TABLE t1;\n", "2_b.up.sql": up(2), "10_c.up.sql": up(10)}},
+		src{"goose", map[string]string{"1_a.sql": "-- +goose Up\n" + up(1) + "-- +goose Down\nDROP TABLE t1;\n", "2_b.sql": "-- +goose Up\n" + up(2), "10_c.sql": "-- +goose Up\n" + up(10)}},
+		src{"dbmate", map[string]string{"1_a.sql": "-- migrate:up\n" + up(1) + "-- migrate:down\nDROP TABLE t1;\n", "2_b.sql": "-- migrate:up\n" + up(2), "10_c.sql": "-- migrate:up\n" + up(10)}},
+		src{"liquibase", map[string]string{"1_a.sql": "--liquibase formatted sql\n--changeset a:1\n" + up(1), "2_b.sql": "--liquibase formatted sql\n--changeset a:2\n" + up(2), "10_c.sql": "--liquibase formatted sql\n--changeset a:3\n" + up(10)}},
+	)
+	c.Par(len(cases), func(i int, w *rt.W) {
+		cs := cases[i]
+		w.Begin(map[string]any{"import-writer": cs.format, "files": cs.files})
+		root, err := os.MkdirTemp(c.Scratch, "impw-")
+		if err != nil {
+			return
+		}
+		defer os.RemoveAll(root)
+		srcd, dst := filepath.Join(root, "src"), filepath.Join(root, "dst")
+		for _, d := range []string{srcd, dst, filepath.Join(root, "home"), filepath.Join(root, "tmp")} {
+			os.MkdirAll(d, 0o755)
+		}
+		for n, b := range cs.files {
+			os.WriteFile(filepath.Join(srcd, n), []byte(b), 0o644)
+		}
+		run := func(args ...string) (int, string) {
+			cmd := exec.Command(c.Atlas, args...)
+			cmd.Dir = root
+			cmd.Env = []string{"HOME=" + filepath.Join(root, "home"), "TMPDIR=" + filepath.Join(root, "tmp"), "ATLAS_NO_UPDATE_NOTIFIER=1", "ATLAS_NO_UPGRADE_SUGGESTIONS=1", "PATH=/usr/bin:/bin"}
+			b, err := cmd.CombinedOutput()
+			var ee *exec.ExitError
+			if errors.As(err, &ee) {
+				return ee.ExitCode(), string(b)
+			}
+			if err != nil {
+				return -1, err.Error()
+			}
+			return 0, string(b)
+		}
+		if rc, out := run("migrate", "import", "--from", "file://"+srcd+"?format="+cs.format, "--to", "file://"+dst); rc != 0 {
+			c.Count("import-writer-refused:"+cs.format, 1)
+			_ = out
+			return
+		}
+		c.Count("cli-writer-op:import:"+cs.format, 1)
+		c.Eval(rt.Digest("import-writer", cs.format, i), true)
+		ld, err := migrate.NewLocalDir(dst)
+		if err != nil {
+			return
+		}
+		if verr := migrate.Validate(ld); verr != nil {
+			c.Violation("cli-writer|invalid-after|migrate-import", fmt.Sprintf("directory written by `migrate import` (%s source) does not validate: %v", cs.format, verr), map[string]any{"format": cs.format, "files": cs.files}, nil)
+			return
+		}
+		if rc, out := run("migrate", "validate", "--dir", "file://"+dst); rc != 0 {
+			c.Violation("cli-writer|invalid-after|migrate-import", "atlas migrate validate rejects the imported directory: "+out, map[string]any{"format": cs.format, "files": cs.files}, nil)
+		}
 	})
 }
